@@ -20,7 +20,7 @@ def corpus(names):
 DEFAULT = dict(
     kinds=ALL_KINDS, adapts=True, lens=[0, 1, 2, 3, 5, 8, 17, 64], threads=(1, 4), ops=(1, 5),
     pulls=True, loops=True, skip=False, query=True, buffered=True, drain=0.6, owners=["drop", "intoseq all", "intoseq 1", "intoseq 0", "intoseq 3"],
-    nonfused=False, panics=False, zero=False, frozen=False, get=False,
+    nonfused=0.15, liars=True, panics=False, zero=False, frozen=False, get=False,
 )
 
 
@@ -35,12 +35,15 @@ def rand_case(rng, cid, prof):
     tail = None
     if kind in ("iter", "iterref"):
         n = min(n, 17)
-        if P["nonfused"] and rng.random() < 0.5:
+        if P["nonfused"] and rng.random() < (0.5 if P["nonfused"] is True else P["nonfused"]):
             tail = ["N"] * rng.randint(1, 2) + ["S%d" % v for v in distinct_vals(rng, rng.randint(1, 3))]
             tail = [("S%d" % (int(t[1:]) + 2000)) if t.startswith("S") else t for t in tail]
         if P["panics"] and rng.random() < 0.7:
             tail = ["P"]
     c = make_source(rng, cid, kind, n, adapt=adapt, tail=tail)
+    if c.is_iter() and P["liars"] and rng.random() < 0.12:
+        # an "exact" size hint that is not the number of elements (size_hint must not be trusted for correctness)
+        c.hint = "fixed%d" % max(0, c.src_len() + rng.choice([-2, -1, -1, 1, 3]))
     if P["panics"] and c.is_iter() and tail == ["P"]:
         # panic position anywhere
         k = rng.randint(0, len(c.script) - 1)
@@ -289,13 +292,16 @@ def stream_for0(pid, tier, seed):
             cases.append(c)
         return cases
     if pid == "C07":
-        prof = dict(kinds=["iter", "iterref"], skip=True, query=False)
+        prof = dict(kinds=["iter", "iterref"], skip=True, query=True)
         cases = defects + pulls_stream(rng, tier, pid, prof=prof, n_random=1500 if not big else 60000, exh=False)
         progs = [[["next", "next"], ["chunk 2 all"]], [["bufnew 2", "bufnext all"], ["next", "skip"]], [["foreach 1"], ["foreach 2"]]]
         cases += exhaustive("C07-x2", small_bases(rng, progs, ["iter"]), 2, 10 if not big else 14)
         # degenerate chunk sizes next to ordinary pulls
         zprogs = [[["bufnew 0", "bufnext all", "next"], ["next", "next"]], [["chunk 0 all", "next"], ["chunk 2 all"]], [["foreach 0"], ["next", "chunk 1 all"]]]
         cases += exhaustive("C07-z2", small_bases(rng, zprogs, ["iter"]), 2, 9 if not big else 12)
+        # length queries on an exact-size source while another thread is inside the wrapped iterator
+        qprogs = [[["next", "next"], ["len", "hasmore", "len"]], [["bufnew 2", "bufnext all"], ["hasmore", "len", "hasmore"]]]
+        cases += exhaustive("C07-q2", small_bases(rng, qprogs, ["iter", "iterref"]), 2, 9 if not big else 12)
         return cases
     if pid in ("C08", "C15"):
         prof = dict(kinds=["vec", "array", "iter"], skip=True, lens=[0, 1, 2, 3, 5, 8], drain=0.3)
@@ -321,6 +327,20 @@ def stream_for0(pid, tier, seed):
         cases = defects + pulls_stream(rng, tier, pid, n_random=1000 if not big else 40000, prof=dict(skip=True))
         for i in range(600 if not big else 30000):
             cases.append(rand_case(rng, "C09-f%d" % i, dict(kinds=KNOWN_KINDS, frozen=True, threads=(2, 4), skip=True)))
+        # other threads stop pulling because they panicked (wrapped iterator, closure) at any point
+        for i in range(500 if not big else 20000):
+            c = rand_case(rng, "C09-p%d" % i, dict(kinds=["iter", "iterref"], panics=True, threads=(2, 3), query=False, skip=(rng.random() < 0.3)))
+            for t in c.threads:
+                for j, op in enumerate(t):
+                    if op.split()[0] in ("foreach", "enumforeach") and rng.random() < 0.3:
+                        t[j] = op + " panic=%d" % rng.randint(0, 4)
+            cases.append(c)
+        pprogs = [[["chunk 3 all"], ["next", "next"]], [["bufnew 2", "bufnext all", "bufnext all"], ["foreach 1"]], [["fold 2"], ["chunk 2 all", "next"]]]
+        for k in range(0, 4):
+            bases = small_bases(rng, pprogs, ["iter"], n=4)
+            for b in bases:
+                b.script = b.script[:k] + ["P"] + b.script[k:]
+            cases += exhaustive("C09-px%d" % k, bases, 2, 7 if not big else 10)
         return cases
     if pid == "C10":
         return defects + pulls_stream(rng, tier, pid, prof=dict(skip=True, owners=["intoseq all", "intoseq 1", "intoseq 2", "intoseq 0"]), exh=False, n_random=2000 if not big else 80000)
@@ -334,6 +354,12 @@ def stream_for0(pid, tier, seed):
             cases.append(c)
         progs = [[["foreach 2"], ["foreach 1"]], [["fold 2"], ["fold 3"]], [["enumforeach 1"], ["next", "enumforeach 2"]]]
         cases += exhaustive("C12-x2", small_bases(rng, progs, ["slice", "vec", "iter"], n=4), 2, 9 if not big else 12)
+        # a source that yields again after its None: the loops must stop at the first None whoever observes it
+        nf = small_bases(rng, [[["foreach 2"], ["foreach 1"]], [["fold 3"], ["enumforeach 1"]], [["foreach 2"], ["values"]]], ["iter"], n=3)
+        for b in nf:
+            b.script = b.script + ["N", "S2001", "S2002", "N", "S2003"]
+            b.hint = "inexact"
+        cases += exhaustive("C12-nf", nf, 2, 10 if not big else 13)
         return cases
     if pid == "C13":
         cases = []
